@@ -324,3 +324,89 @@ def gen_scenario(rng: random.Random, P: Profile, name: str) -> Scn:
     n = gen_ops(rng, P, scn, evs)
     gen_acts(rng, P, scn, evs, n)
     return scn
+
+
+def plant_evrefs(rng: random.Random, scn: Scn):
+    """mutate: turn the scenario into a *chain scenario* — one to three action callbacks are **events** given by name
+    (`before="go"`, `enter="stop"`, ...: the library sends that event with the parent's arguments,
+    `dispatcher.event_method`; under run-to-completion the callback returns None and the event is queued, under
+    `rtc=False` it runs at once and the callback returns the event's own result).
+
+    Chains terminate because an event may only refer to an event of higher id than every event that can run the
+    callback. Scripted callbacks of a chain scenario send nothing themselves and their behaviour rows are keyed by
+    the state value they see (trigger ids cannot be tracked through the library's own forwarding of keyword
+    arguments)."""
+    if scn.alias_sub or not scn.trans:
+        return
+    declared = sorted({e for t in scn.trans for e in t.events})
+    spots = []
+    nonfinal = [i for i, st in enumerate(scn.states) if not st.final]
+    for ti, t in enumerate(scn.trans):
+        for g in ("before", "on", "after"):
+            spots.append((("t", ti), g, max(t.events)))
+    for si, st in enumerate(scn.states):
+        into = [max(t.events) for t in scn.trans if t.tgt == si and not t.internal]
+        spots.append((("s", si), "enter", max(into + [0])))
+        outof = [max(t.events) for t in scn.trans if not t.internal and ((t.any and si in nonfinal) or (not t.any and t.src == si))]
+        if outof:
+            spots.append((("s", si), "exit", max(outof)))
+    rng.shuffle(spots)
+    nid = max([c.id for c in scn.cbs] + [0]) + 1
+    planted = 0
+    for at, g, bound in spots:
+        higher = [e for e in declared if e > bound]
+        if not higher:
+            continue
+        ref = rng.choice(higher)
+        if any(c.style == "evref" and c.at == at and c.group == g and c.ref == ref for c in scn.cbs):
+            continue
+        scn.cbs.append(Cb(nid, g, "evref", "machine", EVENTS[ref], at, sig="ed", ref=ref))
+        nid += 1
+        planted += 1
+        if planted >= rng.choice([1, 1, 2, 3]):
+            break
+    if not planted:
+        return
+    if rng.random() < 0.5:      # chained events that are not allowed in the state of the moment are then ignored
+        scn.allow = True
+    # chain scenario: no aliases, event_data-bearing signatures, state-keyed behaviour rows without sends
+    drop = {c.id for c in scn.cbs if c.alias_of}
+    scn.cbs = [c for c in scn.cbs if c.id not in drop]
+    for c in scn.cbs:
+        if c.sig not in ("ed", "kwargs"):
+            c.sig = "ed"
+            c.named = ()
+    vals = [st.val for st in scn.states]
+    rows = []
+    for c in scn.cbs:
+        if c.style == "evref":
+            continue
+        guard = c.group in ("cond", "unless")
+        for v in vals + [999]:
+            if guard:
+                want = rng.random() < (0.75 if c.group == "cond" else 0.25)
+                ret = rng.choice(TRUTHY_TOKS if want else FALSY_TOKS)
+            else:
+                ret = rng.choice(RET_TOKS)
+            rz = None      # failures come from the chained events themselves (not allowed in the state of the moment)
+            rows.append((c.id, v, v, ret, rz, []))
+        rows.append((c.id, 0, 10**9, rng.choice(TRUTHY_TOKS if c.group == "cond" else FALSY_TOKS if c.group == "unless" else RET_TOKS), None, []))
+    scn.acts = rows
+
+
+def chain_nontrivial(s, a, rt):
+    """a chained event actually ran: some callback saw an event other than the one the caller sent (scripted
+    callbacks of a chain scenario send nothing, so it was sent by the library's event-as-callback wrapper)"""
+    cur = []
+    k = 0
+    for l in a:
+        p = l.split(" ")
+        if p[0] == "B":
+            cur.append(dict(x.split("=", 1) for x in p[4:] if "=" in x).get("ev"))
+        elif p[0] == "R":
+            op = s.ops[int(p[1])] if int(p[1]) < len(s.ops) else ("?",)
+            sent = str(op[1]) if op[0] == "send" else "0"
+            if any(e not in (sent, "?") for e in cur):
+                return True
+            cur = []
+    return False
